@@ -1,4 +1,7 @@
 import MosnVerif.Lemmas.WeightedCluster
+import MosnVerif.Lemmas.EDF
+import MosnVerif.Lemmas.EdfHeap
+import MosnVerif.Lemmas.LB
 /-!
 # C06 — configured weights are honoured exactly (property theorems only)
 -/
@@ -57,5 +60,198 @@ example : (([("a", 0), ("b", 5), ("c", 1)] : List Entry).map (·.1)).Nodup ∧
     (("a", 0) : Entry) ∈ [("a", 0), ("b", 5), ("c", 1)] ∧ 3 < total [("a", 0), ("b", 5), ("c", 1)] := by decide
 example : select [("a", 0), ("b", 5), ("c", 1)] 0 = some "b" := by decide
 example : select [("a", 0), ("b", 5), ("c", 1)] 5 = some "c" := by decide
+
+/-! ## weighted round robin: the EDF scheduler (`edf.go`) over exact rationals
+
+`Sched` is the scheduler state, `nextAndPush wf hint` one `NextAndPush` (the hint resolves exact ties of deadlines the
+way the float64 implementation happened to — every theorem holds for all hints), `run` consecutive picks,
+`refresh wf n pre` the scheduler `EdfLoadBalancer.refresh` builds for `n` hosts (all `Add`s, then `|pre|` warm-up picks). -/
+section EDF
+open MosnVerif.Model MosnVerif.Model.EDF
+
+/-- **edf_invariant_step**: the invariant `dₑ − 1/wₑ ≤ now ≤ dₑ` (all queued `e`) is preserved by every pick, whatever
+positive weight the weight function returns at that moment (least-request / peak-EWMA weights change between picks). -/
+theorem edf_invariant_step (s s' : Sched) (wf : Nat → Rat) (hint : Option Nat) (i : Nat) (h : Inv s)
+    (hwf : ∀ k, 0 < wf k) (hn : s.nextAndPush wf hint = some (i, s')) : Inv s' :=
+  inv_next h hwf hn
+
+/-- **edf_invariant_reachable**: in every state reachable from the constructed balancer (any warm-up, any number of
+picks, any tie resolution) `dᵢ − 1/wᵢ ≤ dⱼ` holds for all queued entries `i`, `j`. -/
+theorem edf_invariant_reachable (wf : Nat → Rat) (hwf : ∀ k, 0 < wf k) (n : Nat) (pre picks : List (Option Nat))
+    (e f : EDF.Entry) (he : e ∈ ((refresh wf n pre).run wf picks).2.entries)
+    (hf : f ∈ ((refresh wf n pre).run wf picks).2.entries) : e.deadline - 1 / e.weight ≤ f.deadline := by
+  obtain ⟨h1, h2, _⟩ := refresh_facts wf hwf n pre
+  exact (run_facts wf hwf picks _ h1 h2).1.pairwise he hf
+
+/-- the served entry always holds a minimal deadline; without hint it is the minimum of the regenerated heap order
+`edfEntryLess` (earliest deadline, ties by queued order). -/
+theorem edf_pick_minimal (s : Sched) (hint : Option Nat) (e : EDF.Entry) (h : s.pick hint = some e) :
+    e ∈ s.entries ∧ ∀ f ∈ s.entries, e.deadline ≤ f.deadline := pick_mem_min h
+
+/-- effective host weights are in the supported range 1..128 whatever is configured. -/
+theorem wrr_weight_range (ws : List Nat) (i : Nat) : (1 : Rat) ≤ wrrWeight ws i ∧ wrrWeight ws i ≤ 128 := by
+  have := fixHostWeight_range ((ws.getD i 0 : Nat) : Int)
+  unfold wrrWeight wrrW
+  exact ⟨by exact_mod_cast Rat.intCast_le_intCast.mpr this.1, by exact_mod_cast Rat.intCast_le_intCast.mpr this.2⟩
+
+/-- **edf_window_bound**: for every weight vector `ws` (effective weights 1..128), every warm-up `pre`, every window
+start (`before` = any picks served earlier) and every window length (`window`), every tie resolution, and all hosts
+`i`, `j`: `nᵢ/wᵢ − nⱼ/wⱼ ≤ 1/wᵢ + 1/wⱼ` where `n` counts the picks inside the window.  With `i`, `j` swapped this is
+`|nᵢ/wᵢ − nⱼ/wⱼ| ≤ 1/wᵢ + 1/wⱼ`. -/
+theorem edf_window_bound (ws : List Nat) (pre before window : List (Option Nat)) (i j : Nat)
+    (hi : i < ws.length) (hj : j < ws.length) :
+    let wf := wrrWeight ws
+    let s1 := ((refresh wf ws.length pre).run wf before).2
+    let served := (s1.run wf window).1
+    ((served.count i : Nat) : Rat) / wf i - ((served.count j : Nat) : Rat) / wf j ≤ 1 / wf i + 1 / wf j := by
+  intro wf s1 served
+  have hwf : ∀ k, 0 < wf k := fun k => by
+    have := (wrr_weight_range ws k).1
+    grind
+  obtain ⟨h1, h2, h3⟩ := refresh_facts wf hwf ws.length pre
+  obtain ⟨r1, r2, r3, _, _⟩ := run_facts wf hwf before _ h1 h2
+  have hitems : s1.entries.map (·.item) = List.range ws.length := r3.trans h3
+  obtain ⟨ei, hei, rfl⟩ := mem_of_item_mem (l := s1.entries) (i := i) (by rw [hitems]; simpa using hi)
+  obtain ⟨ej, hej, rfl⟩ := mem_of_item_mem (l := s1.entries) (i := j) (by rw [hitems]; simpa using hj)
+  exact window_bound wf hwf window s1 r1 r2 hei hej
+
+/-- the executable predicate evaluated on the implementation's pick sequence (`windowsOk`: every window, every pair)
+is implied by the model: it holds of every served sequence, from every reachable state. -/
+theorem edf_spec_holds_on_model (ws : List Nat) (pre before window : List (Option Nat)) :
+    let wf := wrrWeight ws
+    let s1 := ((refresh wf ws.length pre).run wf before).2
+    windowsOk (wrrW ws) ws.length (s1.run wf window).1 = true := by
+  intro wf s1
+  have hw := wrrW_pos ws
+  have hwf : ∀ k, 0 < wf k := fun k => Rat.intCast_pos.mpr (hw k)
+  obtain ⟨h1, h2, h3⟩ := refresh_facts wf hwf ws.length pre
+  obtain ⟨r1, r2, r3, _, _⟩ := run_facts wf hwf before _ h1 h2
+  exact windowsOk_of_run (wrrW ws) hw ws.length window s1 r1 r2 (r3.trans h3)
+
+-- non-vacuity: weights 1, 3, 128 (effective 1, 3, 128), warm-up of one pick, a window of four picks after two picks
+example : ((refresh (wrrWeight [1, 3, 128]) 3 [none]).run (wrrWeight [1, 3, 128]) [none, none]).2.entries.length = 3 := by
+  decide +kernel
+example : (((refresh (wrrWeight [1, 3, 200]) 3 []).run (wrrWeight [1, 3, 200]) (List.replicate 6 none)).1) = [2, 2, 2, 2, 2, 2] := by
+  decide +kernel
+example : (((refresh (wrrWeight [1, 2]) 2 []).run (wrrWeight [1, 2]) (List.replicate 6 none)).1) = [1, 0, 1, 1, 0, 1] := by
+  decide +kernel
+/-- a hint is followed exactly when it names an entry with a minimal exact deadline (here both deadlines are 1). -/
+example : (((refresh (wrrWeight [1, 2]) 2 [none]).run (wrrWeight [1, 2]) [some 1, some 1]).1) = [1, 0] := by
+  decide +kernel
+
+end EDF
+
+/-! ## the array heap of `edfheap.go` under the regenerated order `edfEntryLess` -/
+section Heap
+open MosnVerif.Model MosnVerif.Model.EdfHeap
+
+/-- **heap_peek_min**: in a heap-ordered array `Peek` (cell 0) is a minimum of `edfEntryLess`: no queued entry is
+less than it — earliest deadline, and among equal deadlines the earliest queued. -/
+theorem heap_peek_min (h : Heap EDF.Entry) (hord : Ordered EDF.less h.elements h.size) (k : Nat) (hk : k < h.size) :
+    EDF.less (h.elements k) (peek h) = false :=
+  root_min less_weakOrder h.elements h.size hord k hk
+
+/-- **heap_fix_root**: after the root's entry was replaced by anything (`NextAndPush` raises its deadline and
+queuedTime in place), `Fix(0)` — `fixDown`, else `fixUp`, as written with the hole technique — yields a heap-ordered
+array with the same size and the same contents. -/
+theorem heap_fix_root (h : Heap EDF.Entry) (e' : EDF.Entry) (hord : Ordered EDF.less h.elements h.size) (hs : 0 < h.size) :
+    let g := fix EDF.less { h with elements := upd h.elements 0 e' } 0
+    Ordered EDF.less g.elements g.size ∧ g.size = h.size ∧ SameSet (upd h.elements 0 e') g.elements h.size :=
+  fix_root_spec less_weakOrder h e' hord hs
+
+/-- **heap_push**: `Push` keeps the heap order and adds exactly the pushed entry. -/
+theorem heap_push (h : Heap EDF.Entry) (e : EDF.Entry) (hord : Ordered EDF.less h.elements h.size) :
+    let g := push EDF.less h e
+    Ordered EDF.less g.elements g.size ∧ g.size = h.size + 1 ∧ SameSet (upd h.elements h.size e) g.elements (h.size + 1) :=
+  push_spec less_weakOrder h e hord
+
+/-- **heap_scheduler_refines**: the scheduler of `edf.go` on top of the array heap of `edfheap.go` (`Add` = `Push`,
+`NextAndPush` = `Peek`, update in place, `Fix(0)`) serves, for every number of hosts, every positive weight function
+(re-evaluated at every pick) and every number of picks, exactly the sequence of the list scheduler
+`Model/EDF.lean` without hints, about which the invariant and the window bound are proved. -/
+theorem heap_scheduler_refines (wf : Nat → Rat) (hwf : ∀ k, 0 < wf k) (n k : Nat) :
+    ((HSched.initWith wf n).run wf k).1 = ((EDF.initWith wf n).run wf (List.replicate k none)).1 := by
+  obtain ⟨R, hQ⟩ := init_rel wf hwf n
+  exact run_refines wf hwf k _ _ R (EDF.initWith_facts wf hwf n).1 hQ
+
+example : ((HSched.initWith (EDF.wrrWeight [1, 2, 3]) 3).run (EDF.wrrWeight [1, 2, 3]) 6).1 = [2, 1, 2, 0, 1, 2] := by
+  decide +kernel
+
+-- non-vacuity: three entries pushed in descending deadline order end with the earliest at the root
+private def e3 (d : Rat) (q : Int) : EDF.Entry := { item := q.toNat, deadline := d, weight := 1, queued := q }
+example : (peek (push EDF.less (push EDF.less (push EDF.less ⟨fun _ => default, 0⟩ (e3 3 1)) (e3 2 2)) (e3 1 3))).item = 3 := by
+  decide +kernel
+example : (peek (fix EDF.less { (push EDF.less (push EDF.less (push EDF.less ⟨fun _ => default, 0⟩ (e3 1 1)) (e3 2 2)) (e3 3 3)) with
+    elements := upd (push EDF.less (push EDF.less (push EDF.less ⟨fun _ => default, 0⟩ (e3 1 1)) (e3 2 2)) (e3 3 3)).elements 0 (e3 5 4) } 0)).item = 2 := by
+  decide +kernel
+
+end Heap
+
+/-! ## the weighted round-robin *balancer* (`WRRLoadBalancer.ChooseHost`) over healthy hosts -/
+section WRRBalancer
+open MosnVerif.Model MosnVerif.Model.EDF MosnVerif.Model.LB
+
+/-- **wrr_lookup_window_bound**: for every host set with all hosts healthy and not all configured weights equal (then
+`newWRRLoadBalancer` builds the EDF scheduler), every round-robin start, every warm-up, every number of earlier lookups
+and every window of consecutive lookups, the hosts returned by `ChooseHost` satisfy
+`nᵢ/wᵢ − nⱼ/wⱼ ≤ 1/wᵢ + 1/wⱼ` (with `i`, `j` swapped: the absolute value) for the effective weights
+`wₖ = fixHostWeight(weightₖ) ∈ 1..128`. -/
+theorem wrr_lookup_window_bound (hs : Hosts) (hall : ∀ i, i < hs.length → hAt hs i = true)
+    (hneq : weightsEqual hs = false) (rr0 : Nat) (pre before window : List (Option Nat)) (i j : Nat)
+    (hi : i < hs.length) (hj : j < hs.length) :
+    let st0 := newState .wrr hs rr0 pre
+    let st1 := (wrrServe hs st0 before).2
+    let served := (wrrServe hs st1 window).1
+    ((served.count (some i) : Nat) : Rat) / wrrWf hs i - ((served.count (some j) : Nat) : Rat) / wrrWf hs j
+      ≤ 1 / wrrWf hs i + 1 / wrrWf hs j := by
+  intro st0 st1 served
+  have h2 : 2 ≤ hs.length := by
+    match hs, hneq with
+    | [], h => simp [weightsEqual] at h
+    | [_], h => simp [weightsEqual] at h
+    | _ :: _ :: _, _ => simp
+  have hwf : ∀ k, 0 < wrrWf hs k := fun k => by
+    unfold wrrWf fixedWeight
+    exact Rat.intCast_pos.mpr (by have := (fixHostWeight_range ((statAt hs (·.weight) k : Nat) : Int)).1; omega)
+  -- the constructed scheduler
+  have hs0 : st0.sched = some (refresh (wrrWf hs) hs.length pre) := by
+    simp only [st0, newState, hasEdf, hneq, Bool.true_and, Bool.not_false, Bool.and_true, policyWf]
+    have : decide (hs.length > 1) = true := by simp; omega
+    simp [this]
+  obtain ⟨f1, f2, f3⟩ := refresh_facts (wrrWf hs) hwf hs.length pre
+  have e1 := wrrServe_eq_run hs hall h2 hwf before st0 _ hs0 f3 f1
+  obtain ⟨r1, r2, r3, _, _⟩ := run_facts (wrrWf hs) hwf before _ f1 f2
+  have hst1 : st1.sched = some ((refresh (wrrWf hs) hs.length pre).run (wrrWf hs) before).2 := by
+    simp only [st1, e1]
+  have e2 := wrrServe_eq_run hs hall h2 hwf window st1 _ hst1 (r3.trans f3) r1
+  have hserved : served = ((((refresh (wrrWf hs) hs.length pre).run (wrrWf hs) before).2.run (wrrWf hs) window).1).map some := by
+    simp only [served, e2]
+  have hcount : ∀ k, served.count (some k) =
+      ((((refresh (wrrWf hs) hs.length pre).run (wrrWf hs) before).2.run (wrrWf hs) window).1).count k := by
+    intro k; rw [hserved]
+    generalize (((refresh (wrrWf hs) hs.length pre).run (wrrWf hs) before).2.run (wrrWf hs) window).1 = l
+    induction l with
+    | nil => rfl
+    | cons x r ih => simp only [List.map_cons, List.count_cons, ih]; simp
+  rw [hcount i, hcount j]
+  obtain ⟨ei, hei, hii⟩ := mem_of_item_mem (l := ((refresh (wrrWf hs) hs.length pre).run (wrrWf hs) before).2.entries) (i := i)
+    (by rw [r3.trans f3]; simpa using hi)
+  obtain ⟨ej, hej, hjj⟩ := mem_of_item_mem (l := ((refresh (wrrWf hs) hs.length pre).run (wrrWf hs) before).2.entries) (i := j)
+    (by rw [r3.trans f3]; simpa using hj)
+  have := window_bound (wrrWf hs) hwf window _ r1 r2 hei hej
+  rw [hii, hjj] at this
+  exact this
+
+-- non-vacuity: three healthy hosts with weights 1, 3, 128
+example : weightsEqual ([⟨0, 1, true, 0, 0, 1⟩, ⟨1, 3, true, 0, 0, 1⟩, ⟨2, 128, true, 0, 0, 1⟩] : Hosts) = false ∧
+    ∀ i, i < 3 → hAt ([⟨0, 1, true, 0, 0, 1⟩, ⟨1, 3, true, 0, 0, 1⟩, ⟨2, 128, true, 0, 0, 1⟩] : Hosts) i = true := by
+  refine ⟨by decide, ?_⟩
+  intro i hi
+  match i, hi with
+  | 0, _ => decide
+  | 1, _ => decide
+  | 2, _ => decide
+
+end WRRBalancer
 
 end MosnVerif.Props.C06
